@@ -216,6 +216,7 @@ func H_C16_cmp_bool_enum(s any) {
 }
 
 // a leaf without a value: every comparison is false, never a crash
+//
 //vp:setup S_c16
 func H_C16_operand_unset(s any) {
 	m := s.(*meta.Module)
@@ -233,6 +234,7 @@ func H_C16_operand_unset(s any) {
 }
 
 // where keeps exactly the entries for which the expression holds
+//
 //vp:setup S_c16
 func H_C16_where_rows(s any) {
 	m := s.(*meta.Module)
@@ -280,6 +282,7 @@ func H_C16_where_rows(s any) {
 
 // when: false => invisible to reads and not written by edits; true => as if there were no when.
 // (In this library a container's when is evaluated on the container, a leaf's on its parent.)
+//
 //vp:setup S_c16
 func H_C16_when(s any) {
 	m := s.(*meta.Module)
@@ -325,6 +328,7 @@ func H_C16_when(s any) {
 }
 
 // edits: a leaf whose when is false for the target's data is not written
+//
 //vp:setup S_c16
 func H_C16_when_write(s any) {
 	m := s.(*meta.Module)
@@ -345,6 +349,7 @@ func H_C16_when_write(s any) {
 }
 
 // notification filter keeps exactly the events for which the expression holds
+//
 //vp:setup S_c16
 func H_C16_filter_events(s any) {
 	m := s.(*meta.Module)
@@ -366,6 +371,7 @@ func H_C16_filter_events(s any) {
 }
 
 // the same through the text route: ?where=<xpath text> parsed by the real xpath lexer/parser
+//
 //vp:setup S_c16
 func H_C16_where_text(s any) {
 	m := s.(*meta.Module)
@@ -392,6 +398,78 @@ func H_C16_where_text(s any) {
 	for i := 0; i < 2; i++ {
 		want := c16Math(ops[oi], c16Cmp64(int64(vals[i]), lit))
 		vpAssert((out.root.lists["l"].find(val.Int32(int32(i))) != nil) == want, "?where keeps exactly the matching rows")
+	}
+	vpCover("reached")
+}
+
+// two compiled schemas with the same module name and node paths but different expressions, used one after
+// the other in either order: each is evaluated with its own expression (no process-wide memory of an earlier schema)
+const c16YangB = `module m { namespace "urn:m"; prefix m; revision 2021-01-01;
+	container w {
+		leaf mode { type int32; }
+		container adv { when "lvl<=5"; leaf lvl { type int32; } leaf x { type string; } }
+		leaf wl { when "mode<3"; type string; }
+	}
+	list l { key "k"; leaf k { type int32; } leaf n { type uint8; } }
+}`
+
+func S_c16two() any {
+	a, err := parser.LoadModuleFromString(nil, c16Yang)
+	if err != nil {
+		panic(err)
+	}
+	b, err := parser.LoadModuleFromString(nil, c16YangB)
+	if err != nil {
+		panic(err)
+	}
+	return []*meta.Module{a, b}
+}
+
+//vp:setup S_c16two
+func H_C16_when_two_schemas(s any) {
+	ms := s.([]*meta.Module)
+	mode, lvl := vpInt32(), vpInt32()
+	first := 0
+	if vpBool() {
+		first = 1
+	}
+	rounds := 2 + vpChoose(2) // A B / B A / A B A / B A B
+	for i := 0; i < rounds; i++ {
+		which := (first + i) % 2
+		src := newMemStore()
+		src.quiet = true
+		w := src.root.ensureKid(src, "w")
+		w.leaves["mode"] = val.Int32(mode)
+		w.leaves["wl"] = val.String("wv")
+		adv := w.ensureKid(src, "adv")
+		adv.leaves["lvl"] = val.Int32(lvl)
+		adv.leaves["x"] = val.String("ax")
+		out := newMemStore()
+		out.quiet = true
+		err := NewBrowser(ms[which], src.node()).Root().UpsertInto(out.node())
+		vpAssert(err == nil, "read succeeds")
+		ow := out.root.kids["w"]
+		vpAssert(ow != nil, "w is read")
+		_, gotAdv := ow.kids["adv"]
+		_, gotWl := ow.leaves["wl"]
+		if which == 0 {
+			vpAssert(gotAdv == (lvl > 5) && gotWl == (mode == 3), "schema A is evaluated with its own when expressions whatever was evaluated before")
+		} else {
+			vpAssert(gotAdv == (lvl <= 5) && gotWl == (mode < 3), "schema B is evaluated with its own when expressions whatever was evaluated before")
+		}
+		// where / filter expressions are per request as well
+		rows := newMemStore()
+		rows.quiet = true
+		l := rows.root.ensureList(rows, "l")
+		r := l.addRow(rows, val.Int32(1))
+		r.leaves["k"] = val.Int32(1)
+		r.leaves["n"] = val.UInt8(uint8(10 + which))
+		sel, ferr := NewBrowser(ms[which], rows.node()).Root().Find("l?where=n%3D10")
+		vpAssert(ferr == nil && sel != nil, "find with where succeeds")
+		got := newMemStore()
+		got.quiet = true
+		vpAssert(sel.UpsertInto(&memNode{s: got, l: got.root.ensureList(got, "l")}) == nil, "read list")
+		vpAssert((len(got.root.lists["l"].rows) == 1) == (which == 0), "where=n=10 keeps the entry exactly when n is 10")
 	}
 	vpCover("reached")
 }
